@@ -23,6 +23,11 @@ class SimFatal(BaseException):
     pass
 
 
+class SimType(TypeError):
+    """An ordinary failure that happens to be a TypeError (what a wrongly called callable
+    raises, too)."""
+
+
 class Ambient(Exception):
     pass
 
@@ -31,10 +36,11 @@ EXC_CLASSES: dict[str, Any] = {
     "SimError": SimError,
     "SimLookup": SimLookup,
     "SimFatal": SimFatal,
+    "SimType": SimType,
     "KI": KeyboardInterrupt,
     "SE": SystemExit,
 }
-ORDINARY = ("SimError", "SimLookup")
+ORDINARY = ("SimError", "SimLookup", "SimType")
 BASE_ONLY = ("SimFatal", "KI", "SE")
 DTS = (0.0, 0.25, 0.5, 1.0, 2.0, 3.0, 5.0, 8.0)
 
